@@ -1,10 +1,42 @@
 (* Dispatcher for the fs.path model: name + arguments -> rendered observation. *)
 From Coq Require Import List NArith Bool String.
-From PyFS Require Import Base.PyStr Base.Outcome Base.Render Path.PathModel.
+From PyFS Require Import Base.PyStr Base.Outcome Base.Render Path.PathModel Path.PathSpec.
 Import ListNotations.
 Local Open Scope string_scope.
 
 Definition is_name (n : str) (x : string) : bool := str_eqb n (lit x).
+
+(* reference answers (PathSpec) on canonical forms; "undef" outside the laws' domain *)
+Definition with_cform (p : str) (k : bool * list str -> str) : str :=
+  match cform p with Some f => k f | None => lit "undef" end.
+
+Definition run_path_spec (name : str) (a : list str) : str :=
+  if is_name name "spec_normpath" then r_outcome r_str (spec_normpath (arg 0 a))
+  else if is_name name "spec_iteratepath" then
+    with_cform (arg 0 a) (fun f => r_outcome (r_list r_str) (Ok (snd f)))
+  else if is_name name "spec_recursepath" then
+    with_cform (arg 0 a) (fun f => r_outcome (r_list r_str) (Ok (spec_recursepath f)))
+  else if is_name name "spec_parts" then
+    with_cform (arg 0 a) (fun f => r_outcome (r_list r_str) (Ok (spec_parts f)))
+  else if is_name name "spec_split" then
+    with_cform (arg 0 a) (fun f => r_pair r_str r_str (spec_split f))
+  else if is_name name "spec_abspath" then
+    with_cform (arg 0 a) (fun f => r_str (to_path true (snd f)))
+  else if is_name name "spec_relpath" then
+    with_cform (arg 0 a) (fun f => r_str (to_path false (snd f)))
+  else if is_name name "spec_isbase" then
+    with_cform (arg 0 a) (fun f => with_cform (arg 1 a) (fun g => r_bool (spec_isbase f g)))
+  else if is_name name "spec_isparent" then
+    with_cform (arg 0 a) (fun f => with_cform (arg 1 a) (fun g => r_bool (spec_isparent f g)))
+  else if is_name name "spec_issamedir" then
+    with_cform (arg 0 a) (fun f => with_cform (arg 1 a) (fun g =>
+      r_outcome r_bool (Ok (spec_issamedir f g))))
+  else if is_name name "spec_relativefrom_ok" then
+    (* arguments: base, path, result r of relativefrom: does base ++ r resolve to path? *)
+    with_cform (arg 0 a) (fun f => with_cform (arg 1 a) (fun g =>
+      r_bool (match resolve (snd f ++ comps (arg 2 a)) with
+              | Some cs => list_str_eqb cs (snd g) | None => false end)))
+  else lit "?unknown".
 
 Definition run_path (name : str) (a : list str) : str :=
   if is_name name "normpath" then r_outcome r_str (normpath (arg 0 a))
@@ -29,4 +61,4 @@ Definition run_path (name : str) (a : list str) : str :=
   else if is_name name "frombase" then r_outcome r_str (frombase (arg 0 a) (arg 1 a))
   else if is_name name "relativefrom" then r_outcome r_str (relativefrom (arg 0 a) (arg 1 a))
   else if is_name name "iswildcard" then r_bool (iswildcard (arg 0 a))
-  else lit "?unknown".
+  else run_path_spec name a.
